@@ -922,6 +922,7 @@ func reportAll(s *core.Shard, sc *scenario, vs []verdict) {
 
 func run(s *core.Shard) {
 	runSymlinks(s, 7, "")
+	runComposed(s, 3, "")
 	combos := allCombos()
 	r := s.Rand("scenarios")
 	r.Shuffle(len(combos), func(i, j int) { combos[i], combos[j] = combos[j], combos[i] })
@@ -988,6 +989,10 @@ func replay(s *core.Shard, dir string) {
 	}
 	if err := core.ReadJSON(filepath.Join(dir, "case.json"), &kind); err == nil && kind.Kind == "symlinks" {
 		runSymlinks(s, 0, kind.ID)
+		return
+	}
+	if kind.Kind == "composed" {
+		runComposed(s, 0, kind.ID)
 		return
 	}
 	var sc scenario
